@@ -61,7 +61,7 @@ func c45Scenario(tier string, idx int) scenario {
 	s := scenario{Idx: idx, WorldSeed: mon.Seed()*131 + uint64(idx)}
 	s.Blocks = 4 + r.Intn(2)
 	if tier == "thorough" {
-		s.Blocks = 8 + r.Intn(5)
+		s.Blocks = 12 + r.Intn(9)
 	}
 	s.Gen = r.Intn(4)
 	s.Ver = (s.Gen + 1 + r.Intn(3)) % 4
@@ -944,7 +944,7 @@ func c45Parent(tier string) int {
 	run := mon.NewRun("C45", tier, "exploration",
 		"scenario = chain of blocks; node A (child process: real chain on rocksdb + miner chain + redis pool) fills its pool from a hostile generator through the real admission handler chain.PutTransaction (stale content also behind it) and calls the real GenerateRoundBlock; the serialised block (msgpack/JSON alternating) goes to node B (second child process, own world from the same seed, another miner identity) which re-executes it through UpdateState and runs the real VerifyRoundBlock, then adopts it; distinct = block shapes (multiset of pool classes x status, multi-txn senders, built-ins)")
 	dir := exchangeDir("exchange-C45") // not "c<N>": RunChildren uses and removes scratch/c<index> per child
-	n := scale(tier, 16, 48)
+	n := scale(tier, 16, 96)
 	var gen, ver []mon.ChildSpec
 	for i := 0; i < n; i++ {
 		gen = append(gen, mon.ChildSpec{Name: fmt.Sprintf("gen-%d", i), Args: childArgs("C45", tier, "gen", i, dir), Timeout: time.Duration(scale(tier, 100, 600)) * time.Second})
@@ -962,8 +962,8 @@ func c45Parent(tier string) int {
 	if run.Counter("gen_harness_panics")+run.Counter("ver_harness_panics")+run.Counter("dup_harness_panics") > 0 {
 		run.Inconclusive("a child could not build its node (harness panic, see counters)")
 	}
-	run.RequireMin("blocks_verified", int64(scale(tier, 40, 300)))
-	run.RequireMin("blocks_verified_on_non_genesis_state", int64(scale(tier, 30, 240)))
+	run.RequireMin("blocks_verified", int64(scale(tier, 40, 900)))
+	run.RequireMin("blocks_verified_on_non_genesis_state", int64(scale(tier, 30, 800)))
 	run.RequireMin("monitor:nonce-consecutive", int64(scale(tier, 800, 8000)))
 	run.RequireMin("monitor:dup-builtin-validate", 4)
 	run.Assume("both nodes run in one machine and take wall-clock time from it (block creation date = time.Now of node A); transaction creation dates are relative to it, so hashes differ between runs while the case classes are functions of VERIF_SEED")
